@@ -3,15 +3,20 @@
 //  alg:*    Translation / Transformation / SignedPermutation: transform_up == M x + t (own long
 //           double model of the matrix handed to the constructor), transform_down o transform_up
 //           == id, rotate_down o rotate_up == id, calc_inverse, make_rotation == Rodrigues formula
-//           re-derived in long double, SignedPermutation == explicit +-1 matrix (exact).
+//           re-derived in long double, SignedPermutation == explicit +-1 matrix (exact),
+//           make_permutation(Axis, QuarterTurn) == own integer rotation model == make_rotation.
 //  <type>#i every surface instance x every transform of the alphabet: the sense computed by the
 //           *transformed* surface (SurfaceTranslator for Translation, SurfaceTransformer for
 //           Transformation) at transform_up(x) equals the sign of the ORIGINAL implicit function
 //           (long double, from the original surface.data()) at x, for all lattice points and
-//           for points 2^-12 either side of generated on-surface points.
+//           for points 2^-12 and 2^-24 either side of generated on-surface points.
 //  simp:*   SurfaceSimplifier (default tolerance 1e-10, thorough also 1e-6), applied repeatedly
 //           until it reports "no simplification": the region {sense == s} is the same before
 //           and after (the simplifier may flip s; it says so through the Sense pointer).
+//           Special instances sit on the decision boundaries: offsets below the tolerance (must
+//           snap) and between the tolerance and its square root (must not snap: the 2^-24 ring
+//           [2^-12 ring for tol 1e-6] of near-surface points lies inside the shell a wrongly
+//           snapped surface sweeps).
 //  tsimp:*  TransformSimplifier output moves no lattice point by more than the tolerance.
 //
 // Rounding model for the transformed sense: the transformed coefficients are sums of <= 16
